@@ -76,7 +76,9 @@ def intarg(e):
 
 
 class Machine:
-    def __init__(self, env=None, events=None, max_steps=20000, record=True):
+    def __init__(self, env=None, events=None, max_steps=20000, record=True, oracle=None):
+        self.oracle = oracle       # recorded events of the implementation: results of ADOPTED instructions are taken from it
+        self.adopted = {}
         self.env = dict(DEFAULT_ENV)
         if env:
             self.env.update(env)
@@ -146,9 +148,35 @@ class Frame:
         args = ins.get('args') or []
         h = getattr(self, 'i_' + prim, None)
         if h is None:
+            if self.m.oracle is not None and prim in ADOPTED:
+                self.adopt(prim)
+                self.event(prim)
+                return
             raise Unsupported(prim)
         h(args, ins)
         self.event(prim)
+
+    def adopt(self, prim):
+        """Instructions outside the modelled set (they build operations or ask the chain about other contracts): pop their
+        operands, take the pushed slots from the implementation's own event at the same trace index. Nothing about them is
+        judged; whatever they push is opaque to the rest of the run."""
+        idx = len(self.m.events)
+        if idx >= len(self.m.oracle):
+            raise Unsupported('%s: the implementation stopped before this instruction' % prim)
+        oprim, snap = self.m.oracle[idx][0], self.m.oracle[idx][1]
+        if oprim != prim or snap is None:
+            raise Unsupported('%s: the implementation executed %s here' % (prim, oprim))
+        for _ in range(ADOPTED[prim]):
+            self.pop()
+        pushes = len(snap) - len(self.items)
+        if pushes < 0 or pushes > 2:
+            raise Unsupported('%s: stack depth cannot be aligned' % prim)
+        new = snap[self.prot:self.prot + pushes]
+        for t, v in reversed(new):
+            if t == 'extract-error':
+                raise Unsupported('%s: result not extractable: %s' % (prim, v))
+            self.push(t, v)
+        self.m.adopted[prim] = self.m.adopted.get(prim, 0) + 1
 
     # ---- stack ---------------------------------------------------------------------------------------------------
     def i_DROP(self, a, ins):
@@ -878,6 +906,10 @@ class Frame:
         self.push(T.BOOL, bls.pairing_check(v))
 
 
+# instruction -> number of operands popped; results come from the implementation's trace (see Frame.adopt)
+ADOPTED = {'CONTRACT': 1, 'TRANSFER_TOKENS': 3, 'SELF': 0, 'SET_DELEGATE': 1, 'CREATE_CONTRACT': 3, 'VIEW': 2, 'EMIT': 1}
+
+
 def default_value(t):
     p = t[0]
     if p == 'unit':
@@ -913,5 +945,5 @@ def default_value(t):
     raise KeyError(p)
 
 
-def run(code, stack, env=None, record=True, max_steps=20000):
-    return Machine(env, record=record, max_steps=max_steps).run(code, stack)
+def run(code, stack, env=None, record=True, max_steps=20000, oracle=None):
+    return Machine(env, record=record, max_steps=max_steps, oracle=oracle).run(code, stack)
